@@ -390,6 +390,11 @@ def gen_key_cases(ctx: Ctx):
     (c) empty sections in both groups at once (sampled; thorough tier: the full product 64 x 256)."""
     r = ctx.rng("keys")
     cases = []
+    d = core.VERIF / "harness" / "corpus" / "C12"
+    for f in sorted(d.glob("*.json")) if d.exists() else []:      # corpus first
+        for c in json.loads(f.read_text()).get("cases", []):
+            if c.get("k") == "keys":
+                cases.append(dict(k="keys", present=list(c["present"]), states=dict(c.get("states") or {})))
     for m in range(8):
         for d in range(16):
             st = {MODES[i]: "filled" for i in range(3) if m >> i & 1}
